@@ -123,6 +123,56 @@ fn ctor_scripts(g: &mut Grid) {
     }
 }
 
+/// zero-sized elements make slice lengths beyond isize::MAX reachable without memory: the thin and
+/// the fat view must still agree on them
+fn zst_huge(g: &mut Grid) {
+    let im = isize::MAX as usize;
+    for n in [im - 1, im, im + 1, usize::MAX - 1, usize::MAX, 1usize << 32, (1usize << 32) + 1, 1usize << 63, (1usize << 63) + 1, 3usize << 62] {
+        for rec in [n, n.wrapping_sub(1), n.wrapping_add(1), n & (im), n >> 1] {
+            let case = format!("into_thin: header u64 + {} zero-sized elements, recorded length {}", n, rec);
+            vrt::begin_execution();
+            g.case(format!("zst-huge|{}|{}", n, if rec == n { "eq" } else { "ne" }), || case.clone());
+            let fat = cap(|| Arc::from_header_and_vec(HeaderWithLength::new(7u64, rec), vec![(); n]));
+            let blk = fat.heap_ptr() as usize;
+            if fat.slice.len() != n {
+                g.fail("zst-fat-length", &case, format!("the fat Arc exposes {} elements", fat.slice.len()));
+            }
+            match catch(|| cap(|| Arc::into_thin(fat))) {
+                Ok(thin) => {
+                    if rec != n {
+                        g.fail("into-thin-accepted-wrong-length", &case, "accepted".into());
+                        std::mem::forget(thin);
+                        continue;
+                    }
+                    let (a, b, c) = (thin.header.length, thin.slice.len(), thin.with_arc(|f| f.slice.len()));
+                    if a != n || b != n || c != n || thin.heap_ptr() as usize != blk || thin.header.header != 7 {
+                        g.fail("thin-differs", &case, format!("recorded length {}, thin slice length {}, fat view length {} (true length {})", a, b, c, n));
+                        std::mem::forget(thin);
+                        continue;
+                    }
+                    match catch(|| cap(|| Arc::into_thin(Arc::from_thin(thin)))) {
+                        Ok(back) => {
+                            if back.slice.len() != n || back.heap_ptr() as usize != blk {
+                                g.fail("round-trip", &case, format!("thin -> fat -> thin: length {}", back.slice.len()));
+                            }
+                            cap(|| drop(back));
+                        }
+                        Err(m) => g.fail("round-trip", &case, format!("thin -> fat -> thin refused: {}", m)),
+                    }
+                }
+                Err(m) => {
+                    if rec == n {
+                        g.fail("into-thin-refused-right-length", &case, m);
+                    }
+                }
+            }
+            if !arena::live_blocks().is_empty() || arena::n_errors() != 0 {
+                g.fail("release-after-into-thin", &case, format!("live {:?} errors {:?}", arena::live_blocks(), arena::errors_since(0)));
+            }
+        }
+    }
+}
+
 pub fn run(tier: &str) -> Vec<Grid> {
     let mut g = Grid::new("c10.into_thin", "header shape x element shape x true length 0..=N x recorded length in {0..=n+2, usize::MAX/2+1, usize::MAX} x {sole, co-owned}: into_thin succeeds iff the lengths agree; otherwise panics and the Arc passed in is still released properly");
     let gr = &mut g;
@@ -133,5 +183,6 @@ pub fn run(tier: &str) -> Vec<Grid> {
     }
     let mut c = Grid::new("c10.ctor", "ThinArc::from_header_and_iter under every 3-answer script of ExactSizeIterator::len() over {0,1,2,3,5} x real item count 0..=3: a returned ThinArc records the real length");
     ctor_scripts(&mut c);
+    zst_huge(&mut g);
     vec![g, c]
 }
